@@ -18,6 +18,7 @@ type c05Case struct {
 	MaxDepth int       `json:"maxdepth"`
 	Element  string    `json:"element"`
 	Food     string    `json:"food"`
+	Extra    [][]string `json:"extra,omitempty"` // random combinations of the options of reg and bal (beside the fixed list)
 	Bin      bool      `json:"bin"`
 }
 
@@ -27,7 +28,7 @@ func c05Commands(c c05Case) [][]string {
 	if len(c.S.Log.Recs) > 0 {
 		day = c.S.Log.Recs[0].Head
 	}
-	return [][]string{
+	return append(append([][]string{}, c.Extra...), [][]string{
 		{"reg"},
 		{"reg", "--no-color"},
 		{"reg", "--internal-template-name", "left-aligned"},
@@ -54,7 +55,46 @@ func c05Commands(c c05Case) [][]string {
 		{"stats"},
 		{"lint", "@LOG@"},
 		{"lint", "@BOOK@"},
+	}...)
+}
+
+// vGenRegCombo draws a random combination of the options of `reg` (any subset, in any order; options that exclude
+// each other in spirit may meet: whatever the program makes of them, it must make the same of them on every run).
+func vGenRegCombo(t *rapid.T, x, food string, days []string, label string) []string {
+	day := func(l string) string {
+		if len(days) == 0 {
+			return "2021/01/01"
+		}
+		return days[rapid.IntRange(0, len(days)-1).Draw(t, l)]
 	}
+	tpl := []string{"", "default", "left-aligned", "l", "left", "d", "nosuch"}
+	opts := [][]string{{"--no-totals"}, {"--totals-only"}, {"--no-color"}, {"--shorten"}, {"--use-old-reg-reporter"}, {"--csv"},
+		{"--internal-template-name", tpl[rapid.IntRange(0, len(tpl)-1).Draw(t, label+".tpl")]},
+		{"-s", x}, {"-g"}, {"-f", food}, {"-b", day(label + ".b")}, {"-e", day(label + ".e")}}
+	perm := rapid.Permutation(vIota(len(opts))).Draw(t, label+".order")
+	n := rapid.IntRange(2, 5).Draw(t, label+".n")
+	out := []string{"reg"}
+	for _, i := range perm[:n] {
+		out = append(out, opts[i]...)
+	}
+	return out
+}
+
+func vGenBalCombo(t *rapid.T, x string, days []string, label string) []string {
+	day := func(l string) string {
+		if len(days) == 0 {
+			return "2021/01/01"
+		}
+		return days[rapid.IntRange(0, len(days)-1).Draw(t, l)]
+	}
+	opts := [][]string{{"-c"}, {"--collapse-last"}, {"-s", x}, {"-b", day(label + ".b")}, {"-e", day(label + ".e")}}
+	perm := rapid.Permutation(vIota(len(opts))).Draw(t, label+".order")
+	n := rapid.IntRange(2, 4).Draw(t, label+".n")
+	out := []string{"bal"}
+	for _, i := range perm[:n] {
+		out = append(out, opts[i]...)
+	}
+	return out
 }
 
 func c05Shape(c c05Case) (labels []string, nt bool) {
@@ -124,7 +164,9 @@ func checkC05(c c05Case, ctx *vCtx) *vFailure {
 	ctx.NonTrivial(nt)
 	f := c.S.Write("c05")
 	K := vPick(12, 40)
-	for _, cmd := range c05Commands(c) {
+	firsts := map[int]vRun{}
+	invs := map[int]vInvocation{}
+	for ci, cmd := range c05Commands(c) {
 		args := make([]string, len(cmd))
 		for i, a := range cmd {
 			a = strings.ReplaceAll(a, "@LOG@", f.Log)
@@ -142,6 +184,7 @@ func checkC05(c c05Case, ctx *vCtx) *vFailure {
 			}
 			if k == 0 {
 				first = r
+				firsts[ci], invs[ci] = r, inv
 				continue
 			}
 			if r.Stdout != first.Stdout || r.Failed != first.Failed || r.Err != first.Err {
@@ -161,6 +204,44 @@ func checkC05(c c05Case, ctx *vCtx) *vFailure {
 			}
 		}
 	}
+	// what an earlier invocation of the same process was given must not matter: run something else under other settings
+	// (every environment variable the program's flag definitions name, set to another valid value), then every command
+	// once more under the original settings
+	{
+		other := vWriteFile("c05-other.yaml", "other:\n  z: 1\n")
+		env := map[string]string{}
+		for _, fl := range vSurface() {
+			for _, e := range fl.Env {
+				switch {
+				case fl.Bool:
+					env[e] = "1"
+				case fl.Name == "maxdepth":
+					env[e] = "1"
+				case fl.Name == "date-format":
+					env[e] = "02.01.2006"
+				case fl.Name == "database", fl.Name == "logfile":
+					env[e] = other
+				}
+			}
+		}
+		for _, pc := range [][]string{{"csv", "database-resolved"}, {"reg"}, {"bal"}, {"report", "totals"}} {
+			_ = vRunApp(vInvocation{Args: pc, Env: env})
+			ctx.Run(1)
+		}
+		cmds := c05Commands(c)
+		for ci := 0; ci < len(cmds); ci++ {
+			r := vRunApp(invs[ci])
+			ctx.Run(1)
+			if r.Panic != "" {
+				r.Err = "panic"
+			}
+			first := firsts[ci]
+			if r.Stdout != first.Stdout || r.Failed != first.Failed || r.Err != first.Err {
+				return vFailSig("C05/state-between-invocations", "%v: the result changed after other invocations ran in the same process under other settings (environment %v).\n--- before: failed=%v err=%q\n%s\n--- after: failed=%v err=%q\n%s", cmds[ci], env, first.Failed, first.Err, vTrunc(first.Stdout, 1200), r.Failed, r.Err, vTrunc(r.Stdout, 1200))
+			}
+		}
+		ctx.Label("rerun-after-other-settings")
+	}
 	return nil
 }
 
@@ -179,6 +260,14 @@ func genC05(t *rapid.T) c05Case {
 	c.Element = s.Basics[rapid.IntRange(0, len(s.Basics)-1).Draw(t, "el")]
 	foods := append(append([]string{"a", "."}, s.Recipes...), s.Unknown...)
 	c.Food = foods[rapid.IntRange(0, len(foods)-1).Draw(t, "food")]
+	var days []string
+	for _, r := range s.Log.Recs {
+		days = append(days, r.Head)
+	}
+	for i := 0; i < 3; i++ {
+		c.Extra = append(c.Extra, vGenRegCombo(t, c.Element, c.Food, days, fmt.Sprintf("regcombo%d", i)))
+	}
+	c.Extra = append(c.Extra, vGenBalCombo(t, c.Element, days, "balcombo"))
 	// values whose sums depend on the order of the additions at the printed digit, near ties, huge values
 	if !exact && rapid.IntRange(0, 2).Draw(t, "tricky") == 0 {
 		tricky := []string{"0.005", "0.01", "0.15", "0.1", "0.3", "-0.4", "1e16", "1", "0.100", "0.104", "0.108", "0.5", "0.504", "0.508", "0.015", "2.675", "1e15", "-1e16"}
